@@ -466,6 +466,85 @@ func arithLayers(j judge, tier string) []Layer {
 			},
 		})
 	}
+	// L12: every digit alignment 0..38 between the operands of Add/Sub (L2 takes the word-boundary ones):
+	// the shift kernels split words at every digit position
+	{
+		vecs := WVecs(2, []uint64{0, 1, BW / 10, BW / 2, BW - 1, 8123456789012999999})
+		var xs []*Opnd
+		var xd []*Dec
+		layers = append(layers, Layer{
+			Name:   "L12-every-digit-alignment",
+			Units:  len(vecs) * 2,
+			Bounds: "x,y in ±W(2,{0,1,10^18,B/2,B-1,8123456789012999999}), y shifted by every number of digits 0..38, Add/Sub, prec {19,20,38,58}, 6 modes",
+			Run: func(c *Ctx, u int) {
+				if xs == nil {
+					var base []*Opnd
+					for _, v := range vecs {
+						base = append(base, mkWords(false, v, 0, 0, 0))
+					}
+					xs = signed(base)
+					xd = buildAll(xs)
+				}
+				for yi := range xs {
+					for sh := int64(0); sh <= 38; sh++ {
+						if c.Done() {
+							return
+						}
+						yo := *xs[yi]
+						yo.Exp -= sh
+						yo.V.E10 -= sh
+						binSweep(c, j, []int{opAdd, opSub}, xs[u], &yo, xd[u], yo.Build(), []uint32{19, 20, 38, 58}, M6)
+					}
+				}
+			},
+		})
+	}
+	// L13: long operands that are equal except for one word, at every index: the difference cancels down
+	// to that word (the magnitude comparison and the borrow chain are decided in the middle)
+	{
+		lens := []int{3, 4, 5, 7, 8, 9, 12, 13, 16, 17, 32, 33}
+		layers = append(layers, Layer{
+			Name:   "L13-long-operands-differing-in-one-word",
+			Units:  len(lens),
+			Bounds: fmt.Sprintf("x = n words (n in %v) of one repeated word {B−2, 3333333333333333333, 10^18, 0 below a top word 10^18}, y = x with one word ±1 at every index; Sub(x,y), Sub(y,x), Add(x,−y), Add(−x,y) at precision {19, 19n}, modes Even/ToZero/ToNegativeInf", lens),
+			Run: func(c *Ctx, u int) {
+				n := lens[u]
+				for _, w := range []uint64{BW - 2, 3333333333333333333, BW / 10, 0} {
+					base := make([]uint64, n)
+					for i := range base {
+						base[i] = w
+					}
+					if w < BW/10 {
+						base[n-1] = BW / 10
+					}
+					xo := mkWords(false, base, 2, 0, 0)
+					nxo := mkWords(true, base, 2, 0, 0)
+					x, nx := xo.Build(), nxo.Build()
+					for i := 0; i < n; i++ {
+						for _, d := range []uint64{1, ^uint64(0)} {
+							if c.Done() {
+								return
+							}
+							if base[i] == 0 && d != 1 || i == n-1 && base[i]+d < BW/10 {
+								continue
+							}
+							v := append([]uint64(nil), base...)
+							v[i] += d
+							yo := mkWords(false, v, 2, 0, 0)
+							nyo := mkWords(true, v, 2, 0, 0)
+							y, ny := yo.Build(), nyo.Build()
+							precs := []uint32{19, uint32(19 * n)}
+							ms := []uint8{ToNearestEven, ToZero, ToNegativeInf}
+							binSweep(c, j, []int{opSub}, xo, yo, x, y, precs, ms)
+							binSweep(c, j, []int{opSub}, yo, xo, y, x, precs, ms)
+							binSweep(c, j, []int{opAdd}, xo, nyo, x, ny, precs, ms)
+							binSweep(c, j, []int{opAdd}, nxo, yo, nx, y, precs, ms)
+						}
+					}
+				}
+			},
+		})
+	}
 	// L11: the one non-zero discarded digit sits in a single low word, at every word position of a long
 	// mantissa (the sticky scan must look at every word), all other discarded digits zero
 	{
